@@ -231,6 +231,14 @@ def run(ctx, out, tier):
                      "a Lua interpreter is shared between concurrently running scripts: which script's globals a block sees depends on thread scheduling")
             out.inst("C20.interp", 0, 1)
     shared.sh_traverse(ctx, out)
+    # which validators get created must not depend on the (hash-seeded) order in which files and blocks
+    # are met: the lazy detection loop asks every pending detector about every block (shared with C14)
+    from rules.C14 import check_once as _detect_once, detect_fn as _detect_fn
+    _dv = _detect_fn(ctx)
+    if _dv is not None:
+        _detect_once(ctx, out, _dv, rule="C20.detect")
+    else:
+        out.inst("C20.detect", 0, 4)
     return meta()
 
 
